@@ -39,20 +39,20 @@ PROP = {'rule': 'rapid-generated cases, one unit per package. '
            {'name': 'numa',
             'pkg': 'pkg/scheduler/plugins/nodenumaresource',
             'files': ['C19/c19_numa_test.go'],
-            'tests': [{'run': 'TestVerifC19NUMAReplay', 'quick': 400, 'thorough': 2500, 'steps': 20},
-                      {'run': 'TestVerifC19NUMAPersistDecode', 'quick': 2000, 'thorough': 15000}]},
+            'tests': [{'run': 'TestVerifC19NUMAReplay', 'quick': 1200, 'thorough': 2500, 'steps': 20},
+                      {'run': 'TestVerifC19NUMAPersistDecode', 'quick': 3000, 'thorough': 15000}]},
            {'name': 'device',
             'pkg': 'pkg/scheduler/plugins/deviceshare',
             'files': ['C19/c19_device_test.go'],
-            'tests': [{'run': 'TestVerifC19DeviceReplay', 'quick': 300, 'thorough': 2000, 'steps': 20}]},
+            'tests': [{'run': 'TestVerifC19DeviceReplay', 'quick': 800, 'thorough': 2000, 'steps': 20}]},
            {'name': 'reservation',
             'pkg': 'pkg/scheduler/plugins/reservation',
             'files': ['C19/c19_reservation_test.go'],
-            'tests': [{'run': 'TestVerifC19ReservationReplay', 'quick': 300, 'thorough': 2000, 'steps': 25}]},
+            'tests': [{'run': 'TestVerifC19ReservationReplay', 'quick': 800, 'thorough': 2000, 'steps': 25}]},
            {'name': 'quota',
             'pkg': 'pkg/scheduler/plugins/elasticquota/core',
             'files': ['C19/c19_quota_test.go'],
-            'tests': [{'run': 'TestVerifC19QuotaReplay', 'quick': 300, 'thorough': 2000, 'steps': 25}]}],
+            'tests': [{'run': 'TestVerifC19QuotaReplay', 'quick': 800, 'thorough': 2000, 'steps': 25}]}],
  'manifest': {'technique': 'property-based testing (rapid): round-trip and decode-idempotence of the bind-time annotation codecs; '
                            'model-based state machines whose every prefix is replayed into a fresh cache (differential live vs fresh '
                            'plus an explicit reference model)',
